@@ -132,6 +132,12 @@ def convention_is_not_shared():
         after = dataclasses.asdict(ABI.get(m).calling_convention())
         if after != before:
             bad.append(f"{ff.name}/{isa.name}: calling_convention() after a caller adapted an earlier result: {after}, before {before}")
+            # the description is shared: put the values back, so that the checks that run afterwards see the ABI's own convention
+            for k, v in before.items():
+                try:
+                    setattr(c1, k, v)
+                except Exception:   # noqa
+                    pass
     return bad
 
 
